@@ -136,7 +136,7 @@ def gen_budget(repo):
     tree = ast.parse(open(path).read())
     out = [HEADER % 'pyUSID/processing/process.py, comp_utils.py',
            'From Coq Require Import ZArith QArith Qround Qabs Qminmax Bool.\n'
-           'Inductive exn := TypeError | ValueError.\n'
+           'Inductive exn := TypeError | ValueError | ZeroDivisionError.\n'
            'Inductive res (A : Type) := Ok (a : A) | Err (e : exn).\nArguments Ok {A} a.\nArguments Err {A} e.\n'
            'Definition Qtrunc (q : Q) : Z := if Qle_bool 0 q then Qfloor q else Qceiling q.\n'
            'Local Open Scope Z_scope.\n']
